@@ -8,7 +8,9 @@ from .. import repo, strategies as S
 from ..core import SubCheck, Fail, Discard, HarnessError, metric
 from ..oracles import angle_ref as AR
 
-RULE = ("random expression trees (depth 1..6) over + - neg abs *k k* /k %m round(.,n), optional comparison at the root, leaves "
+RULE = ("random expression trees (depth 1..6) over + - neg abs *k k* /k %m round(.,n) round(.), k / m as float, int or numpy scalars, "
+        "exact multiples of the modulus, every tree also under the five homogeneous and 1..3 generated class assignments, "
+        "optional comparison at the root, leaves "
         "from all five classes with values in [-360, 360] incl. 0, -0, (-1, 0) deg and minute / degree boundaries; intermediate "
         "magnitudes < 720 deg; non-trivial = at least two classes in the tree, or a leaf on a boundary / in (-1, 1) deg")
 ASSUMPTIONS = ["per node: the result is compared with the same Python operator applied to the operands' *actual* .dec() values "
